@@ -54,6 +54,7 @@ pub fn replay(case: &Value) -> Vec<Violation> {
     match case["kind"].as_str().unwrap_or("") {
         "issue" | "pipeline" => crate::pipeline::replay_case(case),
         "weak_selection" => c06::replay_weak(case),
+        "reused_holder" => c06::replay_reused(case),
         "c12_order" => c12::replay_order(),
         "reserved" => c13::replay(case),
         "c16" => c16::replay(case),
